@@ -22,8 +22,8 @@ CASES = [
     m("loader forgets to unpack the axis", "C18-A", D,
       "        _data = numpy.load(filename)\n        self.data = self._extract_data_with_axis(_data, with_axis)", "        _data = numpy.load(filename)\n        self.data = _data"),
     m("complex fallback removed (the repaired defect)", "C18-C", M,
-      "        try:\n            self.data = numpy.loadtxt(filename)\n        except ValueError:\n            # complex data are exported as (re+imj) strings\n            self.data = numpy.loadtxt(filename, dtype=complex)",
-      "        self.data = numpy.loadtxt(filename)"),
+      "        try:\n            data = numpy.loadtxt(filename, ndmin=2)\n        except ValueError:\n            # complex data are exported as (re+imj) strings\n            data = numpy.loadtxt(filename, dtype=complex, ndmin=2)",
+      "        data = numpy.loadtxt(filename, ndmin=2)"),
     m("units-managed setter stores raw values", "C18-D", "quantarhei/utils/types.py",
       "            setattr(self,storage_name,self.convert_2_internal_u(value))", "            setattr(self,storage_name,value)"),
     m("load_parcel returns the parcel itself", "C18-E", "quantarhei/core/parcel.py", "        return obj.content\n", "        return obj\n"),
@@ -66,7 +66,7 @@ CASES += [
     {"name": "exported table takes the type of the data alone (the repaired defect)", "kind": "mutant", "rule": "C18-I", "edits": [
         (D, "        dtype = numpy.result_type(self.data.dtype, axis.data.dtype)", "        dtype = self.data.dtype", 1)]},
     {"name": "axis handed back complex", "kind": "mutant", "rule": "C18-I", "edits": [
-        (D, "                    axis.data = numpy.real(data[:,0])\n                    return data[:,1:]", "                    axis.data = data[:,0]\n                    return data[:,1:]", 1)]},
+        (D, "                    self._set_axis_points(axis, numpy.real(data[:,0]))\n                    return data[:,1:]", "                    self._set_axis_points(axis, data[:,0])\n                    return data[:,1:]", 1)]},
     {"name": "rank of the data not stored in the Matlab file (the repaired defect)", "kind": "mutant", "rule": "C18-I", "edits": [
         (D, "            io.savemat(file, {\"data\":self.data, \"ndim\":self.data.ndim})", "            io.savemat(file, {\"data\":self.data})", 1)]},
     {"name": "rank not restored on loading", "kind": "mutant", "rule": "C18-I", "edits": [
@@ -81,4 +81,15 @@ CASES += [
         ("quantarhei/core/datasaveable.py", "        _data = numpy.load(filename)\n", "        _data = numpy.load(filename, \"r\")\n", 1)]},
     {"name": "binary import copies out of a read-only map", "kind": "twin", "edits": [
         (_MD, "        self.data = numpy.load(filename)\n", "        self.data = numpy.array(numpy.load(filename, mmap_mode=\"r\"))\n", 1)]},
+]
+
+_DSV = "quantarhei/core/datasaveable.py"
+CASES += [
+    {"name": "matrix text import squeezes (the repaired defect)", "kind": "mutant", "rule": "C18-L", "edits": [
+        (_MD, "            data = numpy.loadtxt(filename, ndmin=2)\n", "            data = numpy.loadtxt(filename)\n", 1)]},
+    {"name": "text export without the rank (the repaired defect)", "kind": "mutant", "rule": "C18-L", "edits": [
+        (_MD, "        numpy.savetxt(file, self.data, header=\"ndim %d\" % numpy.ndim(self.data))", "        numpy.savetxt(file, self.data)", 1)]},
+    {"name": "axis filled from a file keeps its old start and step (the repaired defect)", "kind": "mutant", "rule": "C18-L", "edits": [
+        (_DSV, "        axis.data = points\n        axis.length = len(points)\n        axis.start = points[0]\n        if len(points) > 1:\n            axis.step = points[1] - points[0]\n",
+         "        axis.data = points\n", 1)]},
 ]
